@@ -478,6 +478,20 @@ pub fn build(quick: bool) -> Vec<Scenario> {
             v.push(Scenario::new("C09", "cancel_only", format!("cancel_only.{:?}.w{}", p, w).to_lowercase(), Arc::new(move |e| run(e, w, p, false, true, false))));
         }
     }
+    // the cancel races with the hand-off itself: the waker acts in the instant in which the cancelled waiter has
+    // registered its release (gated on the label behind SyncBlocker::set_release); whoever loses must pass the
+    // lock / permit / notification on exactly once
+    for w in [1usize, 2] {
+        v.push(Scenario::new("C09", "cancel_vs_handoff", format!("cancel_vs_handoff.mutex.w{}", w), Arc::new(move |e| super::c05::handoff_vs_cancel(e, w, false))).bound(2));
+        if quick && w == 2 {
+            continue;
+        }
+        v.push(Scenario::new("C09", "cancel_vs_handoff", format!("cancel_vs_handoff.mutex.second_waiter.w{}", w), Arc::new(move |e| super::c05::handoff_vs_cancel(e, w, true))).bound(2));
+        v.push(Scenario::new("C09", "cancel_vs_handoff", format!("cancel_vs_handoff.sem.w{}", w), Arc::new(move |e| super::c10::post_vs_giveup(e, w, true))).bound(2));
+        v.push(Scenario::new("C09", "cancel_vs_handoff", format!("cancel_vs_handoff.rwlock_writer.w{}", w), Arc::new(move |e| super::c12::handoff_vs_cancel(e, w, false))).bound(2));
+        v.push(Scenario::new("C09", "cancel_vs_handoff", format!("cancel_vs_handoff.rwlock_reader.w{}", w), Arc::new(move |e| super::c12::handoff_vs_cancel(e, w, true))).bound(2));
+        v.push(Scenario::new("C09", "cancel_vs_handoff", format!("cancel_vs_handoff.condvar.w{}", w), Arc::new(move |e| super::c11::cv_forward_sb(e, w))).bound(2));
+    }
     // never cancelled: nobody observes a cancellation
     for p in [Prim::Mutex, Prim::Sem, Prim::MpmcRecv] {
         v.push(Scenario::new("C09", "no_cancel", format!("nocancel.{:?}.w2", p).to_lowercase(), Arc::new(move |e| run(e, 2, p, true, false, true))));
